@@ -1,9 +1,14 @@
 # -*- coding: utf-8 -*-
 """C05 - load then save preserves a package produced by any application.
 
-proof:          lean/OdfModel/Props/C05.lean (fix_identity, fix_w1_ok, fix_w2_text_untouched, fix_w4_ok, section_attributes_kept, sections_preserved_partial; extras_carried parked in Props/C05Extras.lean until the package layer provides the general theorem) about lean/OdfModel/LoadSax.lean (LoadParser, __fixXmlPart, the manifest
+proof:          lean/OdfModel/Props/C05.lean (fix_identity, fix_inserts_in_root_tag, fix_prolog_untouched, fix_rest_untouched, fix_w5_root_behind_doctype, fix_w1_ok, fix_w2_text_untouched, fix_w4_ok, section_attributes_kept, sections_preserved_partial; extras_carried parked in Props/C05Extras.lean until the package layer provides the general theorem) about lean/OdfModel/LoadSax.lean (LoadParser, __fixXmlPart, the manifest
                 dispatch of load)
 correspondence: __fixXmlPart on the text of every part of every package (real function vs `fixxml` of drv_load);
+                __fixXmlPart on PROLOG TEXTS (harness/prologs.py, fix e859a9c): every legal prolog shape (entity literals, comments,
+                processing instructions with `<name`, quotes, `>`, `]` inside; root declaring all / none / some of the nine prefixes)
+                and token soups with malformed / unterminated prologs (the model reproduces the backtracking of Python's `re` on
+                EVERY text, nothing is left unmodelled) - model vs real function, character for character; on the legal shapes the
+                real result must also keep everything up to the end of the document element's name (fix_prolog_untouched);
                 the SAX event stream of every part (xml.sax + recording handler, after the real __fixXmlPart) fed to
                 the model's LoadParser vs the sections the real load() built
 oracle:         source package vs package saved after load, both read with zipfile + expat only: body, common
@@ -484,11 +489,49 @@ def gen_cases(chk):
     return cases
 
 
+def correspond_prologs(chk, drv):
+    """`__fixXmlPart` on prolog texts: model (`fixxml` of drv_load) vs the real function, character for character"""
+    import prologs
+    texts = [(('shape', n, v), t, e) for n, v, t, e in prologs.member_texts()]
+    # unterminated / very long internal subsets: first the time of ONE call, in a child process (an exponential matcher must not hang the check)
+    nfast, slow = prologs.probe_slow(common.REPO)
+    chk.count('fixxml_prolog_timed_calls', nfast)
+    if slow is not None:
+        name, ent, secs = slow
+        text = dict(prologs.slow_texts(bool(ent))).get(name, u'')
+        chk.fail('fixxmlpart-slow', {'base': 'prolog', 'mut': None, 'seed': 0, 'slow': name, 'entity': ent, 'text': text[:300]},
+                 'one call of __fixXmlPart on a %d character text (internal subset that does not end, full of comments / processing instructions) %s; '
+                 'limit %.1f s: load() hangs on such a part' % (len(text), ('took %.1f s' % secs) if secs is not None else
+                                                               'did not return within the budget of the probe', prologs.SLOW_LIMIT))
+    else:
+        texts += [(('slow', n_, ent), t, None) for ent in (0, 1) for n_, t in prologs.slow_texts(bool(ent))]
+    texts += [(('soup', i), t, None) for i, t in enumerate(prologs.soup(chk.rng, 3000 if chk.tier == 'thorough' else 700))]
+    answers = drv.batch(['fixxml ' + enc_str(t) for _, t, _ in texts])
+    for (key, text, e), ans in zip(texts, answers):
+        want = L.real_fix(text)
+        chk.corr(); chk.count('fixxml_prolog_' + key[0])
+        if want != text:
+            chk.count('fixxml_prolog_changed_text')
+        if ans != 'ok ' + enc_str(want):
+            chk.corr_diff({'prolog': list(key), 'text': text[:400]}, want[:400], dec_str(ans[3:])[:400] if ans.startswith('ok ') else ans,
+                          '__fixXmlPart on a prolog text')
+        if e is not None:
+            # independent of the model: a legal prolog and the start of the root tag come back as they are, the rest follows what was inserted
+            if want[:e] != text[:e] or not want.endswith(text[e:]) or (key[2] == 0 and want != text):
+                chk.corr_diff({'prolog': list(key), 'text': text[:400]}, want[:400], text[:400],
+                              '__fixXmlPart must insert behind the name of the document element only (the prolog is legal XML)')
+
+
 def run(chk, replay=None):
     chk.rule = ('every .od? package shipped in the repository, each also put through structure-preserving mutators '
                 '(prefix renaming/swapping, default namespace, declaration layout, manifest order, object numbering, extra '
                 'members, every kind of listed member below object folders, foreign attributes, fonts in content.xml only, names with blanks, CDATA, indentation) and synthetic '
                 'packages from the harness\' own serialiser; histories of 2-4 packages loaded in one process and saved in turn, each 1-3 times; non-trivial = the package has a body with content')
+    if replay is not None and replay['input'].get('base') == 'prolog':
+        import prologs
+        n, slow = prologs.probe_slow(common.REPO)
+        print('replay: probe of __fixXmlPart on prologs.slow_texts(): %d calls in time, first slow call: %s' % (n, slow))
+        return 1 if slow is not None else 0
     if replay is not None:
         if replay['input'].get('base') == 'history':
             rep, nsave = run_history(replay['input'])
@@ -526,6 +569,7 @@ def run(chk, replay=None):
     chk.prove(modules=['OdfModel.Props.C05', 'OdfModel.Props.C05Extras'], drivers=['drv_load'])
     drv = chk.driver('drv_load')
     L.correspond_pyspace(chk, drv)
+    correspond_prologs(chk, drv)
     # ---- histories first: several documents of one process, saved in turn and repeatedly (the replay of a failure found
     # here is the whole history; a library that carries state from one save to the next shows it here first)
     for hc in gen_histories(chk):
